@@ -245,6 +245,7 @@ type foBackend struct {
 	walk  func(fn func(key []byte, v interface{}, exp time.Time))
 	len   func() int
 	expAl func(ctx context.Context)
+	del   func(ctx context.Context, k []byte) error
 }
 
 type foAPI interface {
@@ -363,6 +364,14 @@ type foRun struct {
 
 	sharedCtx context.Context
 	nestedOps []*FOOp
+
+	sideWrites []sideWrite // values another part of the application stored in the backend directly
+}
+
+type sideWrite struct {
+	key string
+	tok Tok
+	seq uint64
 }
 
 func (r *foRun) cfgUpdateTTL() time.Duration {
@@ -616,7 +625,7 @@ func (r *foRun) construct() {
 	case "syncmap":
 		m := cache.NewSyncMap(bcfg.Use)
 		r.be = foBackend{
-			plain: m, stop: m.VerifStop, len: m.Len, expAl: m.ExpireAll,
+			plain: m, stop: m.VerifStop, len: m.Len, expAl: m.ExpireAll, del: m.Delete,
 			read: func(ctx context.Context, k []byte) (interface{}, error) {
 				v, err := m.Read(ctx, k)
 				return unwrapVal(v), err
@@ -629,7 +638,7 @@ func (r *foRun) construct() {
 	case "shardedOf":
 		m := cache.NewShardedMapOf[Tok](bcfg.Use)
 		r.be = foBackend{
-			gen: m, stop: m.VerifStop, len: m.Len, expAl: m.ExpireAll,
+			gen: m, stop: m.VerifStop, len: m.Len, expAl: m.ExpireAll, del: m.Delete,
 			read:  func(ctx context.Context, k []byte) (interface{}, error) { return m.Read(ctx, k) },
 			write: func(ctx context.Context, k []byte, v Tok) error { return m.Write(ctx, k, v) },
 			walk: func(fn func(key []byte, v interface{}, exp time.Time)) {
@@ -640,7 +649,7 @@ func (r *foRun) construct() {
 		// ShardedMapOf[interface{}] satisfies the non-generic ReadWriter: Failover over the generic backend.
 		m := cache.NewShardedMapOf[interface{}](bcfg.Use)
 		r.be = foBackend{
-			plain: m, stop: m.VerifStop, len: m.Len, expAl: m.ExpireAll,
+			plain: m, stop: m.VerifStop, len: m.Len, expAl: m.ExpireAll, del: m.Delete,
 			read: func(ctx context.Context, k []byte) (interface{}, error) {
 				v, err := m.Read(ctx, k)
 				return unwrapVal(v), err
@@ -656,7 +665,7 @@ func (r *foRun) construct() {
 	default:
 		m := cache.NewShardedMap(bcfg.Use)
 		r.be = foBackend{
-			plain: m, stop: m.VerifStop, len: m.Len, expAl: m.ExpireAll,
+			plain: m, stop: m.VerifStop, len: m.Len, expAl: m.ExpireAll, del: m.Delete,
 			read: func(ctx context.Context, k []byte) (interface{}, error) {
 				v, err := m.Read(ctx, k)
 				return unwrapVal(v), err
@@ -836,6 +845,24 @@ func (r *foRun) client(ci int) {
 				r.e.logf("c%d.%d backend.ExpireAll", ci, oi)
 				r.be.expAl(context.Background())
 				r.e.out.fault("backend_expire_all_during_gets")
+			}
+		case "sideWrite":
+			// ... or stores a value for a key directly
+			if !r.sc.DefaultBackend {
+				key := r.sc.Keys[op.Key]
+				tok := Tok{K: key, ID: fmt.Sprintf("side%d.%d", ci, oi)}
+				r.sideWrites = append(r.sideWrites, sideWrite{key: key, tok: tok, seq: r.e.s.NextSeq()})
+				r.e.logf("c%d.%d backend.Write(%q, %v)", ci, oi, key, tok)
+				_ = r.be.write(context.Background(), []byte(key), tok)
+				r.e.out.fault("backend_write_during_gets")
+			}
+		case "sideDelete":
+			// ... or deletes a key directly
+			if !r.sc.DefaultBackend {
+				key := r.sc.Keys[op.Key]
+				r.e.logf("c%d.%d backend.Delete(%q)", ci, oi, key)
+				_ = r.be.del(context.Background(), []byte(key))
+				r.e.out.fault("backend_delete_during_gets")
 			}
 		}
 	}
